@@ -144,10 +144,26 @@ def judge(ctx, drv, res, case, ob, want_account):
             res.count('parallel-failure-exit: end reached with a failed parallel step')
             if not case['detached'] and (ob['rc'] != 0 or (want_account and not ob.get('report'))):
                 res.disagreements.append({'case': case, 'why': 'parallel-only failure: the model says exit 0 and a report', 'impl': [ob['rc'], ob.get('report')]})
+    if bad and bad['model_starts'][:len(bad['impl_starts'])] == bad['impl_starts']:
+        # canvas had started only a prefix of what the model starts when the (already repeated) wait ran out, and the
+        # harness stopped driving the invocation there: what it left behind is a half-driven run, not a finished one.
+        # The disagreement above stands (a hang of the real loop ends as "no failing input found"); the oracles are for
+        # finished invocations and for starts that must NOT happen, so they have no verdict here.
+        res.count('no verdict: the harness stopped driving a late invocation')
+        return
     # ---- oracle on what really happened (C04): order of starts and ends, exit status, end recorded
     tr = ob.get('trace', [])
     end_recorded = any(r['name'] == 'end' and r['skip'] != '1' for r in rows)
-    exit_status = ob['rc'] if not case['detached'] else (0 if any(r['name'] == 'end' for r in rows) else 1)
+    if not case['detached']:
+        exit_status = ob['rc']
+    elif not skip_end:
+        # the status of a detached invocation is not observable: the end record stands for it
+        exit_status = 0 if end_recorded else 1
+    else:
+        # detached AND end skipped: neither the status nor an end record can be observed; the status conjunct is given
+        # what the observed ends imply (a synchronous step ended non-zero), i.e. it is not judged; all other conjuncts are
+        sync = {x['name'] for x in case['steps'] if not x['parallel']}
+        exit_status = 1 if any(t[0] == 'end' and t[1] in sync and t[2] != '0' for t in tr) else 0
     if skip_end:
         # end is skipped: "the end step is recorded only if ..." has nothing to record; the oracle's conjunct
         # "end recorded iff no synchronous step failed" is given the exit status instead (it then says: exit status 0 iff
@@ -223,7 +239,8 @@ def judge_account(ctx, drv, res, case, ob, st, rows, irows, hooks, tr, skip_end)
     if ok2 != '1':
         res.oracle_failures.append({'case': case, 'signature': 'accounting-violated',
                                     'what': 'records %s hooks %s logs %s lock_during %s lock_after %s report %s mails %s' % (
-                                        irows, hooks, logs, samples, ob.get('lock_after'), report, mails)})
+                                        irows, hooks, logs, samples, ob.get('lock_after'), report, mails),
+                                    'rounds': ob.get('rounds'), 'rc': ob.get('rc'), 'out': ob.get('out'), 'trace': tr})
     # the duration clause: every record of an executed step carries a duration that is not negative and is the time the
     # step really ran - between (gate opened - start seen) - 1 and (hook seen - launch) + 1 in whole seconds
     for r in rows:
